@@ -402,7 +402,7 @@ def chord_obligations(ix, R, site):
     want = [
         ('k[0]', 'Assign', 'sqrt((Rp + dz[0]/2 + z[layer] + dz[layer]/2)**2 - P)'),
         ('k[1:]', 'Assign', 'sqrt((Rp + dz[0]/2 + z[layer+1:] + dz[layer+1:]/2)**2 - P)'),
-        ('k[1:]', 'Sub', 'sqrt((Rp + dz[0]/2 + z[layer:N-1] + dz[layer:N-1]/2)**2 - P)'),
+        ('k[1:]', 'Add', '-sqrt((Rp + dz[0]/2 + z[layer:N-1] + dz[layer:N-1]/2)**2 - P)'),
     ]
     b['P'] = p
     b['k'] = k_alloc.value
